@@ -1,5 +1,5 @@
 (* Proofs about Model/Derive.v (property C16). *)
-From SV Require Import Base.Prelude Base.Bytes Model.Derive.
+From SV Require Import Base.Prelude Base.Bytes Model.Derive Model.DeriveSpec.
 From Coq Require Import Ascii String Permutation.
 Open Scope N_scope.
 
@@ -3470,4 +3470,195 @@ Proof.
         cbn [map combine fst]. f_equal. apply IH. cbn in Lp. congruence. }
       rewrite E, Ep in M'. apply mem_In in M'. congruence. }
     now rewrite X.
+Qed.
+
+(* ------------------------------------------------------------ the documented relation = the strict table *)
+
+Definition drops (fs : list vfield) (db : list dbfield) (u : list vfield) : bool :=
+  existsb (fun f => vf_am f && mem (vf_name f) (map fst db) && negb (mem (vf_name f) (map vf_name u))) fs.
+
+Lemma existsb_false_impl {A} (p q : A -> bool) l :
+  (forall x, In x l -> p x = true -> q x = true) -> existsb q l = false -> existsb p l = false.
+Proof.
+  intros H Q. apply not_true_is_false. intros P. apply existsb_exists in P as (x & Hx & Px).
+  assert (existsb q l = true) by (apply existsb_exists; exists x; auto). congruence.
+Qed.
+
+Lemma ord_bind_sound fs db u p rest : ord_bind fs db u p rest ->
+  gused fs db = Some u /\ names_prefix (map vf_name u) db = Some (p, rest) /\ drops fs db u = false.
+Proof.
+  induction 1 as [rest|f fs ty db u p rest _ (G & N & D)|f fs db u p rest Am Nin _ (G & N & D)].
+  - repeat split; destruct rest; reflexivity.
+  - cbn [gused map names_prefix]. rewrite String.eqb_refl, G, N. repeat split.
+    unfold drops in *. cbn [existsb map]. unfold mem at 2. cbn [existsb]. rewrite String.eqb_refl.
+    cbn [orb negb]. rewrite andb_false_r. cbn [orb].
+    revert D. apply existsb_false_impl. intros g _ T.
+    apply andb_true_iff in T as [T T3]. apply andb_true_iff in T as [T1 T2]. apply negb_true_iff in T3.
+    unfold mem in *. cbn [existsb fst] in *. apply orb_false_iff in T3 as [E T3]. rewrite E in T2. cbn [orb] in T2.
+    now rewrite T1, T2, T3.
+  - assert (G' : gused (f :: fs) db = Some u).
+    { cbn [gused]. destruct db as [|[n ty] db]; [now rewrite Am|].
+      destruct (String.eqb n (vf_name f)) eqn:E; [|now rewrite Am].
+      exfalso. apply Nin. left. cbn. apply String.eqb_eq in E. now symmetry. }
+    repeat split; try assumption. unfold drops in *. cbn [existsb]. rewrite D, orb_false_r.
+    assert (M : mem (vf_name f) (map fst db) = false).
+    { apply not_true_is_false. intros M. now apply mem_In in M. }
+    now rewrite M, andb_false_r.
+Qed.
+
+Lemma ord_bind_complete fs : NoDup (map vf_name fs) -> forall db u,
+  gused fs db = Some u -> drops fs db u = false -> exists p rest, ord_bind fs db u p rest.
+Proof.
+  induction fs as [|f fs IH]; intros HN db u G D.
+  - cbn in G. injection G as <-. exists [], db. constructor.
+  - cbn [map] in HN. inversion HN as [|? ? Hnot HN']; subst.
+    unfold drops in D. cbn [existsb] in D. apply orb_false_iff in D as [Df D]. fold (drops fs db u) in D.
+    (* a field passed over is absent from the UDT *)
+    assert (Skip : vf_am f = true -> gused fs db = Some u -> exists p rest, ord_bind (f :: fs) db u p rest).
+    { intros Am G'. destruct (IH HN' db u G' D) as (p & rest & B). exists p, rest.
+      apply ob_missing; try assumption. intros Hin. apply mem_In in Hin. rewrite Am, Hin in Df. cbn [andb] in Df.
+      apply negb_false_iff in Df. apply mem_In in Df. apply in_map_iff in Df as (g & Eg & Hg).
+      destruct (gused_sound _ _ _ G') as (S & _). apply Hnot. rewrite <- Eg. apply in_map.
+      now apply (subseq_In _ _ _ S). }
+    cbn [gused] in G. destruct db as [|[n ty] db].
+    + destruct (vf_am f) eqn:Am; [|discriminate]. now apply Skip.
+    + destruct (String.eqb n (vf_name f)) eqn:E.
+      * destruct (gused fs db) as [u'|] eqn:G'; [|discriminate]. injection G as <-.
+        apply String.eqb_eq in E. subst n.
+        assert (D' : drops fs db u' = false).
+        { unfold drops in *. revert D. apply existsb_false_impl. intros g Hg T.
+          apply andb_true_iff in T as [T T3]. apply andb_true_iff in T as [T1 T2]. apply negb_true_iff in T3.
+          assert (Ne : String.eqb (vf_name g) (vf_name f) = false).
+          { apply String.eqb_neq. intros Eq. apply Hnot. rewrite <- Eq. now apply in_map. }
+          unfold mem in *. cbn [map fst existsb]. now rewrite T1, T2, Ne, T3, orb_true_r. }
+        destruct (IH HN' db u' G' D') as (p & rest & B). exists ((vf_name f, ty) :: p), rest. now constructor.
+      * destruct (vf_am f) eqn:Am; [|discriminate]. now apply Skip.
+Qed.
+
+Lemma ordered_am_drops_gused d db : vd_ordered d = true -> vd_snc d = false -> vnodup (vd_fields d) ->
+  ordered_am_drops d db =
+  match gused (nonskipped (vd_fields d)) db with
+  | None => false
+  | Some u => drops (nonskipped (vd_fields d)) db u
+  end.
+Proof.
+  intros Ho Hs Hnd. unfold ordered_am_drops. cbv zeta. rewrite Ho, Hs, (doc_ordered_used_gused _ _ Hnd).
+  reflexivity.
+Qed.
+
+Lemma forallb_combine_Forall2 {A B} (q : A * B -> bool) (l : list A) (m : list B) :
+  List.length l = List.length m ->
+  (forallb q (combine l m) = true <-> Forall2 (fun a b => q (a, b) = true) l m).
+Proof.
+  revert m; induction l as [|a l IH]; intros [|b m] H; cbn in *; try discriminate.
+  - split; [constructor|reflexivity].
+  - rewrite andb_true_iff, IH by congruence. split.
+    + intros [H1 H2]. now constructor.
+    + intros F. inversion F; subst. tauto.
+Qed.
+
+Lemma all_some_Forall2 {A B} (g : A -> option B) l cs :
+  all_some (map g l) = Some cs <-> Forall2 (fun x c => g x = Some c) l cs.
+Proof.
+  revert cs; induction l as [|x l IH]; intros cs; cbn [map all_some].
+  - split; [intros H; injection H as <-; constructor|intros F; now inversion F].
+  - destruct (g x) as [y|] eqn:E.
+    + destruct (all_some (map g l)) as [ys|] eqn:AS.
+      * split; [intros H; injection H as <-; constructor; [assumption|now apply IH]|].
+        intros F. inversion F as [|? c ? cs' Hc Hcs]; subst. apply IH in Hcs. congruence.
+      * split; [discriminate|]. intros F. inversion F as [|? c ? cs' Hc Hcs]; subst. apply IH in Hcs. discriminate.
+    + split; [discriminate|]. intros F. inversion F; subst. congruence.
+Qed.
+
+Lemma Forall2_length' {A B} (R : A -> B -> Prop) l m : Forall2 R l m -> List.length l = List.length m.
+Proof. induction 1; cbn; congruence. Qed.
+
+Theorem typeck_ordered_strict_rel d db : vd_ordered d = true -> vd_snc d = false -> vnodup (vd_fields d) ->
+  (doc_typeck_value_ordered_strict d db = true <-> doc_rel_typeck_ordered d db).
+Proof.
+  intros Ho Hs Hnd. unfold doc_typeck_value_ordered_strict, doc_rel_typeck_ordered.
+  rewrite (ordered_am_drops_gused d db Ho Hs Hnd), doc_typeck_value_ordered_am_eq, (doc_ordered_used_gused _ _ Hnd).
+  set (fs := nonskipped (vd_fields d)) in *. unfold vnodup in Hnd. fold fs in Hnd. split.
+  - destruct (gused fs db) as [u|] eqn:G; [|rewrite andb_false_r; discriminate].
+    intros H. apply andb_true_iff in H as [D T]. apply negb_true_iff in D.
+    destruct (names_prefix (map vf_name u) db) as [[p rest]|] eqn:N; [|discriminate].
+    apply andb_true_iff in T as [X A].
+    destruct (ord_bind_complete fs Hnd db u G D) as (p' & rest' & B).
+    destruct (ord_bind_sound _ _ _ _ _ B) as (_ & N' & _). rewrite N in N'. injection N' as <- <-.
+    exists u, p, rest. split; [assumption|]. split.
+    + intros Fb. rewrite Fb in X. cbn [negb orb] in X. now destruct rest.
+    + destruct (names_prefix_some _ _ _ _ N) as [_ L]. rewrite map_length in L.
+      apply (forallb_combine_Forall2 acc_pair u p (eq_sym L)) in A. exact A.
+  - intros (u & p & rest & B & X & A). destruct (ord_bind_sound _ _ _ _ _ B) as (G & N & D).
+    rewrite G, D, N. cbn [negb andb]. apply andb_true_iff. split.
+    + unfold excess_ok in X. destruct (vd_forbid d); [now rewrite (X eq_refl)|reflexivity].
+    + apply (forallb_combine_Forall2 acc_pair u p (Forall2_length' _ _ _ A)). exact A.
+Qed.
+
+Theorem ser_ordered_strict_rel d db cells : vd_ordered d = true -> vd_snc d = false -> vnodup (vd_fields d) ->
+  (doc_ser_value_ordered_strict d db = Accept cells <-> doc_rel_ser_ordered d db cells).
+Proof.
+  intros Ho Hs Hnd. unfold doc_ser_value_ordered_strict, doc_rel_ser_ordered.
+  rewrite (ordered_am_drops_gused d db Ho Hs Hnd), doc_ser_value_ordered_am_eq, (doc_ordered_used_gused _ _ Hnd).
+  set (fs := nonskipped (vd_fields d)) in *. unfold vnodup in Hnd. fold fs in Hnd. split.
+  - destruct (gused fs db) as [u|] eqn:G; [|discriminate].
+    destruct (drops fs db u) eqn:D; [discriminate|].
+    destruct (names_prefix (map vf_name u) db) as [[p rest]|] eqn:N; [|discriminate].
+    destruct (vd_forbid d && negb (is_nil rest)) eqn:X; [discriminate|].
+    destruct (all_some (map ser_pair (combine u p))) as [cs|] eqn:AS; [|discriminate]. intros H. injection H as <-.
+    destruct (ord_bind_complete fs Hnd db u G D) as (p' & rest' & B).
+    destruct (ord_bind_sound _ _ _ _ _ B) as (_ & N' & _). rewrite N in N'. injection N' as <- <-.
+    exists u, p, rest. split; [assumption|]. split.
+    + intros Fb. rewrite Fb in X. cbn [andb] in X. apply negb_false_iff in X. now destruct rest.
+    + now apply all_some_Forall2 in AS.
+  - intros (u & p & rest & B & X & A). destruct (ord_bind_sound _ _ _ _ _ B) as (G & N & D).
+    rewrite G, D, N.
+    assert (E : vd_forbid d && negb (is_nil rest) = false).
+    { unfold excess_ok in X. destruct (vd_forbid d); [now rewrite (X eq_refl)|reflexivity]. }
+    rewrite E. apply (all_some_Forall2 ser_pair) in A. now rewrite A.
+Qed.
+
+(* what the generated type check accepts, without a class premise: the documented relation, or an
+   input of the known class F24 *)
+Theorem typeck_ordered_characterised d db : vd_ordered d = true -> vd_snc d = false -> vnodup (vd_fields d) ->
+  (gen_typeck_value_ordered d db = Ok tt <->
+   doc_rel_typeck_ordered d db \/ (ordered_am_drops d db = true /\ doc_typeck_value_ordered_am d db = true)).
+Proof.
+  intros Ho Hs Hnd. rewrite (typeck_value_ordered_am_doc d db Hs Hnd), <- (typeck_ordered_strict_rel d db Ho Hs Hnd).
+  unfold doc_typeck_value_ordered_strict. destruct (ordered_am_drops d db), (doc_typeck_value_ordered_am d db); cbn; tauto.
+Qed.
+
+Theorem ser_ordered_documented d db : vd_ordered d = true -> vd_snc d = false -> vnodup (vd_fields d) ->
+  ordered_am_drops d db = false ->
+  forall cells, gen_ser_value_ordered d db = Ok cells <-> doc_rel_ser_ordered d db cells.
+Proof.
+  intros Ho Hs Hnd K cells. rewrite <- (ser_ordered_strict_rel d db cells Ho Hs Hnd).
+  rewrite <- (ser_value_ordered_strict_doc d db Hs Hnd K).
+  destruct (gen_ser_value_ordered d db); cbn [outcome_of]; split; congruence.
+Qed.
+
+Theorem ser_ordered_characterised d db cells : vd_ordered d = true -> vd_snc d = false -> vnodup (vd_fields d) ->
+  (gen_ser_value_ordered d db = Ok cells <->
+   doc_rel_ser_ordered d db cells \/ (ordered_am_drops d db = true /\ doc_ser_value_ordered_am d db = Accept cells)).
+Proof.
+  intros Ho Hs Hnd. rewrite <- (ser_ordered_strict_rel d db cells Ho Hs Hnd).
+  pose proof (ser_value_ordered_am_doc d db Hs Hnd) as A. unfold doc_ser_value_ordered_strict.
+  destruct (ordered_am_drops d db); destruct (gen_ser_value_ordered d db) as [cs|e]; cbn [outcome_of] in A; rewrite <- A; split.
+  - intros H. injection H as ->. now right.
+  - intros [H|[_ H]]; [discriminate|congruence].
+  - discriminate.
+  - intros [H|[_ H]]; discriminate.
+  - intros H. injection H as ->. now left.
+  - intros [H|[H _]]; [congruence|discriminate].
+  - discriminate.
+  - intros [H|[H _]]; discriminate.
+Qed.
+
+(* the documented binding is unique *)
+Theorem ord_bind_unique fs db u p rest u' p' rest' :
+  ord_bind fs db u p rest -> ord_bind fs db u' p' rest' -> u = u' /\ p = p' /\ rest = rest'.
+Proof.
+  intros B B'. destruct (ord_bind_sound _ _ _ _ _ B) as (G & N & _).
+  destruct (ord_bind_sound _ _ _ _ _ B') as (G' & N' & _). rewrite G in G'. injection G' as <-.
+  rewrite N in N'. injection N' as <- <-. repeat split.
 Qed.
